@@ -158,6 +158,7 @@ def check(run):
     _polygon_rings(run, P)
     _open_grid_kwargs(run, P)
     _icon_layout(run, P)
+    _vertices_exact(run, P)
 
 
 # ------------------------------------------------------------------------------------------------ dispatch
@@ -795,4 +796,25 @@ def _icon_layout(run, P):
                 run.holds("F-CONN/icon-layout", c, where(f, st), "entry-major file tables transposed unconditionally")
     if n == 0:
         run.incomplete("F-CONN/icon-layout", f"{IO}_icon.py:transposition", f"{IO}_icon.py", "no transposition (.T / transpose / swapaxes) of the ICON connectivity tables found: how the file's (n_entries, n_elements) layout is turned is not recognised")
+
+
+def _vertices_exact(run, P):
+    """Face-vertex input: two corners are the same node iff their coordinates are identical.  np.unique is applied to the vertices as given - a quantised copy
+    (np.round / rint / floor / a cast to a coarser type) merges corners that differ, so the Grid reports one node where the source describes two (and two inputs that
+    differ in such a coordinate give equal grids)."""
+    f = P.func(f"{IO}_vertices.py:_read_face_vertices")
+    defs = LocalDefs(f.node)
+    c = f"{f.key}:nodes-by-exact-coordinates"
+    uniq = [x for x in ast.walk(f.node) if isinstance(x, ast.Call) and (dotted(x.func) or [""])[-1] == "unique" and x.args]
+    if not uniq:
+        run.incomplete("F-SRC/vertex-identity", c, where(f), "no np.unique over the vertices found: how corners are identified as nodes is not recognised")
+        return
+    for u in uniq:
+        nodes, _ = defs.closure(u.args[0])
+        q = next((x for e in nodes for x in ast.walk(e) if isinstance(x, ast.Call) and (dotted(x.func) or [""])[-1] in ("round", "around", "round_", "rint", "floor", "ceil", "trunc", "fix", "digitize")), None)
+        if q is not None:
+            run.violation("F-SRC/vertex-identity", c, where(f, u), f"corners are identified as nodes after `{norm(q)[:50]}`: vertices that differ by less than the quantisation step become one node with the coordinates of "
+                          "only one of them")
+        else:
+            run.holds("F-SRC/vertex-identity", c, where(f, u), "np.unique over the vertex coordinates as given")
 
